@@ -58,11 +58,16 @@ POISON_KEY = '~poison'
 
 
 # ------------------------------------------------------------------ constants of a configuration
-def consts(Obj=('a', 'b'), Blobs=(), Val=('v0', 'v1'), Edges='EdgesFlat', MaxSp=0, MaxHist=2, MaxOther=0,
-           Ops=('add', 'own', 'rm'), AliasCreating=False, SpBlobByName=False, InvalidateDoomed=False, LeakUnstored=False):
-    return dict(Obj=tuple(Obj), Blobs=tuple(Blobs), Val=tuple(Val), Edges=Edges, MaxSp=MaxSp, MaxHist=MaxHist,
-                MaxOther=MaxOther, Ops=tuple(Ops), AliasCreating=AliasCreating, SpBlobByName=SpBlobByName,
-                InvalidateDoomed=InvalidateDoomed, LeakUnstored=LeakUnstored)
+PRE = {(): 'PreNone', ('a',): 'PreA', ('a', 'b'): 'PreAB'}
+
+
+def consts(Obj=('a', 'b'), Blobs=(), Val=('v0', 'v1'), Edges='EdgesFlat', Pre=(), MaxSp=0, MaxCommit=1, MaxOther=0,
+           MaxAct=3, MaxTail=1, Ops=('add', 'own', 'rm'), AliasCreating=False, SpBlobByName=False, InvalidateDoomed=False,
+           LeakUnstored=False):
+    return dict(Obj=tuple(Obj), Blobs=tuple(Blobs), Val=tuple(Val), Edges=Edges, Pre=tuple(Pre), MaxSp=MaxSp,
+                MaxCommit=MaxCommit, MaxOther=MaxOther, MaxAct=MaxAct, MaxTail=MaxTail, Ops=tuple(Ops),
+                AliasCreating=AliasCreating, SpBlobByName=SpBlobByName, InvalidateDoomed=InvalidateDoomed,
+                LeakUnstored=LeakUnstored)
 
 
 def tla_consts(c):
@@ -72,7 +77,8 @@ def tla_consts(c):
     def b(x):
         return 'TRUE' if x else 'FALSE'
     return {'Obj': s(c['Obj']), 'Root': '"%s"' % ROOT, 'Blobs': s(c['Blobs']), 'Val': s(c['Val']), 'Edges': '<- ' + c['Edges'],
-            'MaxSp': c['MaxSp'], 'MaxHist': c['MaxHist'], 'MaxOther': c['MaxOther'], 'Ops': s(c['Ops']),
+            'Pre': '<- ' + PRE[tuple(c['Pre'])], 'MaxSp': c['MaxSp'], 'MaxCommit': c['MaxCommit'], 'MaxOther': c['MaxOther'],
+            'MaxAct': c['MaxAct'], 'MaxTail': c['MaxTail'], 'Ops': s(c['Ops']),
             'AliasCreating': b(c['AliasCreating']), 'SpBlobByName': b(c['SpBlobByName']),
             'InvalidateDoomed': b(c['InvalidateDoomed']), 'LeakUnstored': b(c['LeakUnstored'])}
 
@@ -310,9 +316,6 @@ class ConnReplayer:
         self.c2 = self.db.open(self.tm2)
         root = self.c1.root()
         root['v'] = c['Val'][0]
-        self.tm1.commit()
-        self.tids = [self.storage.lastTransaction()]
-        root._p_invalidate()
         shapes = dict(opts.get('shapes') or {})
         self.shape = {ROOT: SHAPES['map']}
         self.objs = {ROOT: root}
@@ -320,6 +323,12 @@ class ConnReplayer:
             sh = SHAPES['blob'] if n in c['Blobs'] else SHAPES[shapes.get(n, 'map')]
             self.shape[n] = sh
             self.objs[n] = sh.new(c['Val'][0])
+        for n in c['Pre']:
+            self.shape[ROOT].link(root, n, self.objs[n])
+        self.tm1.commit()
+        self.tids = [self.storage.lastTransaction()]
+        for n in (ROOT,) + tuple(c['Pre']):
+            self.objs[n]._p_invalidate()
         self.by_id = {id(o): n for n, o in self.objs.items()}
         self.oidnames = {z64: ROOT}
         self.sps = []
@@ -406,7 +415,7 @@ class ConnReplayer:
             return dict(GHOST)
         if sh.name == 'blob':
             fn = o._p_blob_uncommitted or o._p_blob_committed
-            if not fn:
+            if not fn or not os.path.exists(fn):
                 return {'v': 'nofile', 'kids': ()}
             with open(fn, 'rb') as f:
                 return {'v': f.read().decode(), 'kids': ()}
@@ -615,6 +624,8 @@ class ConnReplayer:
             eq('ob.flag', str(so['flag']), io_['flag'])
             eq('ob.cached', bool(so['cached']), io_['cached'])
             eq('ob.serial', so['serial'], io_['serial'])
+            if n in blobs and not so['own']:
+                continue        # the data of a disowned blob went to the store for good: outside the model
             eq('ob.st', norm_state(so['st']), io_['st'])
         sc, ic = st['cn'], p['cn']
         eq('cn.joined', bool(sc['joined']), ic['joined'])
@@ -640,6 +651,8 @@ class ConnReplayer:
             if a['kind'] == 'tmp':
                 self._cmp_tmp('sps', a, b, eq)
         for n in self.names:
+            if n in blobs and not st['ob'][n]['own']:
+                continue
             eq('obs.seen', norm_state(st['obs']['seen'][n]), p['seen'][n])
         if 'pub' in p:
             for n in self.names:
@@ -689,9 +702,20 @@ class ConnReplayer:
             if sp.valid:
                 raise Mismatch('sps.invalidated', False, True)
 
+    def _drop_savepoints(self):
+        dead, self.sps = self.sps, []
+        return dead
+
+    @staticmethod
+    def _check_dead(dead):
+        for sp in dead:
+            if sp.valid:
+                raise Mismatch('sps.invalidated', False, True)
+
     def do_Abort(self, st):
+        dead = self._drop_savepoints()
         self.tm1.abort()
-        self.sps = []
+        self._check_dead(dead)
 
     def do_Close(self, st):
         refused = bool(st['cn']['opened'])
@@ -730,14 +754,14 @@ class ConnReplayer:
         self._commit_expect_failure()
 
     def _commit_expect_failure(self):
+        dead = self._drop_savepoints()
         try:
             self.tm1.commit()
         except (Injected, ConflictError) as e:
             self.last_exc = e
         else:
             raise Mismatch('commit.outcome', 'raises', 'returned')
-        finally:
-            self.sps = []
+        self._check_dead(dead)
 
     def after_failure(self):
         """the caller's duty after a failed commit; a stutter for the specification"""
@@ -785,6 +809,7 @@ class ConnReplayer:
             self.shape[poisoned].poison(self.objs[poisoned])
         if stepwise:
             self.c1._readCurrent.tap = snap('Store')
+        dead = self._drop_savepoints()
         try:
             if end == 'Finish':
                 self.tm1.commit()
@@ -810,9 +835,9 @@ class ConnReplayer:
             raise Mismatch('commit.outcome', end, '%s: %s' % (type(e).__name__, e))
         finally:
             self.c1._readCurrent.tap = None
-            self.sps = []
             if poisoned is not None:
                 self.shape[poisoned].unpoison(self.objs[poisoned])
+        self._check_dead(dead)
         # match the observations with the steps
         out = []
         obs = list(self.snaps)
